@@ -11,7 +11,8 @@ enumerated input; TLC enumerates (XPathGrammarGen.tla):
   tiny   all sequences over a 12-token alphabet to MaxTiny tokens (deeper nesting)
   mutant all single-token mutants of the minimal rendering of XPathSets ASTs
   lref   all sequences over the leafref alphabet + mutants of valid path-args
-  chars  all character strings over 25 character classes to MaxChars characters
+  chars  all character strings over 31 character classes to MaxChars characters (expr);
+         lchars: over 14 classes to MaxChars+1 characters for the leafref compiler
 The harness compiles each input in two whitespace renderings with the real
 compilers and compares error-or-not with the verdict.
 """
@@ -52,7 +53,7 @@ def totality(ctx, tier):
 def run(ctx):
     ctx.build(["xp"])
     t = TIERS[ctx.tier]
-    files = generate(ctx, ["full", "core", "tiny", "mutant", "lref", "chars"], t)
+    files = generate(ctx, ["full", "core", "tiny", "mutant", "lref", "chars", "lchars"], t)
     out = ctx.path("gres.ndjson")
     r = ctx.run_bin("xp", ["gram", "-out", out] + files, timeout=2400)
     stats = json.loads(r.stdout.strip().splitlines()[-1])
